@@ -502,14 +502,14 @@ class HTTP2Connection(ConnectionInterface):
         """
         Returns the maximum allowable outgoing flow for a given stream.
 
-        If the allowable flow is zero, then waits on the network until
+        If the allowable flow is zero or negative, then waits on the network until
         WindowUpdated frames have increased the flow rate.
         https://tools.ietf.org/html/rfc7540#section-6.9
         """
         local_flow: int = self._h2_state.local_flow_control_window(stream_id)
         max_frame_size: int = self._h2_state.max_outbound_frame_size
         flow = min(local_flow, max_frame_size)
-        while flow == 0:
+        while flow <= 0:
             self._receive_events(request)
             local_flow = self._h2_state.local_flow_control_window(stream_id)
             max_frame_size = self._h2_state.max_outbound_frame_size
